@@ -39,6 +39,7 @@ type SchedPlan struct {
 	Decoded bool        `json:"decoded"` // shared tokens come out of the decoders instead of the constructors
 	Ops     [][]string  `json:"ops"`     // per goroutine
 	Inter   []int       `json:"interleave"`
+	DupPrf  int         `json:"dup_proof,omitempty"` // >0: proof number DupPrf-1 is listed twice in a row (an invalid but well-formed invocation)
 	EncKey  []byte      `json:"enc_key,omitempty"`
 }
 
@@ -184,6 +185,10 @@ func buildSchedWorld(p *SchedPlan) (*schedWorld, error) {
 		w.cids = append(w.cids, c)
 		wr.AddSealed(c, b)
 		prf = append([]cid.Cid{c}, prf...)
+	}
+	if p.DupPrf > 0 && len(prf) > 0 {
+		i := (p.DupPrf - 1) % len(prf)
+		prf = append(prf[:i+1:i+1], prf[i:]...)
 	}
 	v := p.Inv
 	if v.NonceLen < 12 {
@@ -821,6 +826,9 @@ func genSched(r *Rand, g GenCfg) Plan {
 		p.Dlgs = append(p.Dlgs, d)
 	}
 	p.Inv = InvSpec{Label: "i", Iss: holders[nl], Sub: sub, Aud: -1, Cmd: "/a/b", Args: argv, NonceLen: 12, Meta: mkMeta()}
+	if r.Chance(0.15) {
+		p.DupPrf = 1 + r.Intn(4)
+	}
 	p.EncKey = r.Bytes(32)
 	p.EncKey[0] |= 1
 	if r.Chance(0.3) {
